@@ -225,6 +225,9 @@ func (f *fnCtx) assign(s *ast.AssignStmt, sc scope, next func(scope) string) str
 	if t, ok := f.bufAssign(s, sc, next); ok {
 		return t
 	}
+	if t, ok := f.recAssign(s, sc, next); ok { // structs.go: x = append(x, T{...})
+		return t
+	}
 	tg := make([]target, len(s.Lhs))
 	for i, l := range s.Lhs {
 		id, ok := l.(*ast.Ident)
